@@ -331,8 +331,13 @@ let () =
               end in
             (match model with Ok (_, mcs) when mcs = gcs -> bmodel_of_step := Some bmodel | _ -> ());
             let sides = List.concat_map (fun ch -> (match ch.c_from with Some e -> [e] | None -> []) @ (match ch.c_to with Some e -> [e] | None -> [])) gcs in
-            let integral = List.for_all (fun e -> int_of_n e.e_mode = sub_mode || Hashtbl.mem store (int_of_n e.e_hash)) sides in
-            if not integral then count "outside_domain_missing_blob";
+            (* the domain of "every referenced blob is available": integral_b (extracted; C20_cache_no_refusal_strict) - the
+               object is in the store, or the entry is a submodule entry and (lenient mode or the path is registered in
+               the .gitmodules of THIS commit); judged on the recorded environment of the commit alone *)
+            let integral = integral_b (benv ci) gcs in
+            if not integral then count "outside_domain_missing_blob"
+            else if failmissing && List.exists (fun e -> int_of_n e.e_mode = sub_mode && not (Hashtbl.mem store (int_of_n e.e_hash))) sides then
+              count "strict_steps_with_registered_submodules";
             (match bck with
              | "ok" ->
                  count "bc_ok";
@@ -367,13 +372,15 @@ let () =
              | "err" ->
                  count "bc_err";
                  if not (bool_of_sx (List.nth (args (field "bc" st)) 1)) then mismatch id (here ^ " BlobCache: error together with a result");
-                 if integral && not failmissing then
-                   propfail id (here ^ " cache-covers: BlobCache refused a change list whose blobs all exist");
+                 if integral then
+                   propfail id (here ^ " cache-covers: BlobCache refused a change list whose blobs are all available"
+                                ^ (if failmissing then " (strict submodule mode: every submodule entry of the step is registered in the .gitmodules of the commit): " else ": ")
+                                ^ show_changes gcs);
                  (match bmodel with Err _ -> () | _ -> mismatch id (here ^ " BlobCache: impl=err, model=" ^ (match bmodel with Ok _ -> "ok" | _ -> "panic")))
              | "panic" ->
                  count "bc_panic";
-                 if integral && not failmissing then
-                   propfail id (here ^ " cache-covers: BlobCache panicked on a change list whose blobs all exist");
+                 if integral then
+                   propfail id (here ^ " cache-covers: BlobCache panicked on a change list whose blobs are all available: " ^ show_changes gcs);
                  (match bmodel with Panic -> () | _ -> mismatch id (here ^ " BlobCache: impl=panic, model=" ^ (match bmodel with Ok _ -> "ok" | _ -> "err")))
              | k -> failwith ("bc kind " ^ k))
           end else if tdk = "panic" then mismatch id (here ^ " TreeDiff panicked");
